@@ -1,4 +1,5 @@
 import AvoVerif.Props.C04
+import AvoVerif.Props.C04Build
 import AvoVerif.Props.C04Tables
 #print axioms Avo.RW.covers_sound
 #print axioms Avo.RW.judge_iff
@@ -7,15 +8,21 @@ import AvoVerif.Props.C04Tables
 #print axioms Avo.RW.covers_ofRegs
 #print axioms Avo.RW.covers_specReads
 #print axioms Avo.RW.covers_specWrites
-#print axioms Avo.RW.and_eq_iff
-#print axioms Avo.RW.mem_eq_any
+#print axioms Avo.RW.executes_sound
+#print axioms Avo.RW.builds_sound
+#print axioms Avo.BuildRW.declaredReads_eq_spec
+#print axioms Avo.BuildRW.declaredReads_isSome
+#print axioms Avo.BuildRW.declaredWrites_eq_spec
+#print axioms Avo.BuildRW.declared_cover_iff
 #print axioms Avo.FormActions.Tables.table_rowOK
 #print axioms Avo.FormActions.Tables.table_shape
 #print axioms Avo.FormActions.Tables.cancelling_forms_lead_with_two_registers
 #print axioms Avo.FormActions.Tables.implicit_operands_resolve
 #print axioms Avo.FormActions.Tables.cmov_destination_read_write
 #print axioms Avo.FormActions.Tables.setcc_destination_write_only
+#print axioms Avo.FormActions.Tables.bitscan_destination_read_write
 #print axioms Avo.FormActions.Tables.suffix_classes_Z_consistent
-#print axioms Avo.FormActions.Tables.merge_destinations_read_write
 #print axioms Avo.FormActions.Tables.masked_vector_destination
-#print axioms Avo.FormActions.Tables.no_nonfinal_opmask_declared_written
+#print axioms Avo.FormActions.Tables.nonfinal_opmasks_read
+#print axioms Avo.FormActions.Tables.denied_rows_declare_their_operands
+#print axioms Avo.FormActions.Tables.jcxz_reads_rcx
